@@ -400,7 +400,8 @@ func runC15(cfg Config, args []string) int {
 		Assume: []string{"the frame is judged on the kernel's view of the scratch tree, which includes the run's HOME (go telemetry switched off beforehand) and TMPDIR; GOCACHE and GOMODCACHE of the go tool are outside the world and not part of the frame",
 			"checks run as root: EACCES/EROFS/EMFILE are injected at the os facade, ENOENT/EISDIR are real"},
 		Extra:    map[string]any{"components_real": componentsReal, "components_simulated": componentsSim, "seam": env.Seam, "simulated_time": "not applicable: convergen reads no clock; the facade clock was never read"},
-		Required: []string{"n:outcome:ok", "n:outcome:fail", "n:must_not_touch_output", "n:output_open_faults_fired"},
+		Required: []string{"n:outcome:ok", "n:outcome:fail", "n:must_not_touch_output"},
+		Desired:  []string{"n:output_open_faults_fired", "fired:stdout:full"},
 	}
 	rep := RunBatch(b, start)
 	rep.Stats.Merge(pre)
